@@ -19,7 +19,7 @@ def check_C02(tier, seed):
     maxflows = 2 if tier == "quick" else 5
     models = [Model("MC_MassBalance.tla", {"Schemes": {k}, "MaxFlows": maxflows, "Emit": True},
                     invariants=["Prop_C02", "EmitInv"], workers=2 if tier == "quick" else 3,
-                    label=f"MC_MassBalance/scheme{k}/maxflows{maxflows}") for k in (1, 2, 3, 4, 5)]
+                    label=f"MC_MassBalance/scheme{k}/maxflows{maxflows}") for k in ((2, 3, 5) if tier == "quick" else (1, 2, 3, 4, 5))]
     vectors = []
     for m, res in core.run_models(models, seed=seed, parallel=5):
         out.add_tlc(m, res)
